@@ -32,6 +32,7 @@ ASSUMPTIONS = [
 ]
 FLOORS = {'evaluate_outcomes': 2000, 'pairs_seen': 144,
           'reassigned_evaluations': 300, 'two_sheet_evaluations': 300,
+          'decimal_residue_cases': 100,
           'rendering_groups': 500}
 ANCHOR_FUNCS = {
     'xlcalculator/parser.py': ['FormulaParser.shunting_yard',
@@ -474,6 +475,41 @@ def run(ctx):
         for asg in assignments(n_asg):
             R.add(ast, asg, 'triple', styles[:2] if not thorough else styles)
     ctx.block('ordered operator triples', 1728 // n)
+
+    # ---- decimal fractions: comparisons of sums and products that leave a
+    # binary residue (0.1+0.2 vs 0.3).  Only + - * and the comparisons, which
+    # are the same IEEE operations in the reference; the six comparisons of
+    # one pair must also be consistent with each other.
+    if sh in (0, 1) or thorough:
+        decs = [(0.1, '0.1'), (0.2, '0.2'), (0.3, '0.3'), (1.1, '1.1'),
+                (2.2, '2.2'), (3.3, '3.3'), (0.7, '0.7'), (2.1, '2.1')]
+        import operator as _op
+        triples = []
+        for a in decs:
+            for b in decs:
+                for sym, fn in (('+', _op.add), ('-', _op.sub),
+                                ('*', _op.mul)):
+                    exact = fn(a[0], b[0])
+                    near = round(exact, 10)
+                    if near != exact and near > 0:
+                        # the decimal the user would write differs from the
+                        # binary result in the last places
+                        triples.append((a, b, sym, (near, repr(near))))
+        for _ in range(120 if thorough else 40):
+            a, b, sym_, c = rng.choice(triples)
+            asg = tuple(v for v, _ in (a, b, c)) + tuple(
+                rng.choice(POOL) for _ in CELLS[3:])
+            if rng.random() < 0.5:
+                la, lb, lc = cellref(0), cellref(1), cellref(2)
+            else:
+                la, lb, lc = (('lit', v, t) for v, t in (a, b, c))
+            left = ('bin', sym_, la, lb)
+            right = lc if rng.random() < 0.6 else \
+                ('bin', '*', lc, ('lit', 1, '1'))
+            for op in ('=', '<>', '<', '>', '<=', '>='):
+                ast = ('bin', op, left, right)
+                R.add(ast, asg, 'decimal-residue', [('minimal', False)])
+            ctx.event('decimal_residue_cases', 6)
 
     # ---- sampled trees ------------------------------------------------------
     def leaves(r):
